@@ -107,15 +107,25 @@ func (j *judge) explore(nodes map[string]*node, bp BatchProject, seed, pidx uint
 		// client quirks: the same well-formed request with a charset parameter on its content type, an
 		// unrelated query key, an unrelated header, its first scalar query key sent twice with the same value,
 		// no Content-Type at all (each alone, then the first three together on an adventurous request)
-		for _, qk := range []string{"ctype-charset", "extra-query", "extra-header", "dup-query-same", "no-ctype"} {
+		for _, qk := range []string{"ctype-charset", "extra-query", "extra-header", "dup-query-same", "dup-header-same", "no-ctype", "extra-json-field"} {
 			p := pl.build(ri, "valid-quirk", nil, false)
+			if qk == "extra-json-field" && !(strings.HasPrefix(p.Body, "{") && strings.Contains(p.CType, "json")) {
+				continue
+			}
 			if (qk == "ctype-charset" || qk == "no-ctype") && p.CType == "" {
 				continue
 			}
 			if qk == "dup-query-same" && p.DupQuery == "" {
 				continue
 			}
+			if qk == "dup-header-same" && len(p.DupHeader) != 2 {
+				continue
+			}
 			p.Quirks = []string{qk}
+			if qk == "extra-json-field" {
+				// whether a member the declared type does not have is ignored or refused is not decided by C05
+				p.Expect.Outcome, p.Expect.Args, p.Expect.Why = "unjudged", nil, "body carries a member the declared type does not have"
+			}
 			if qk == "no-ctype" {
 				// whether a body without a declared media type still "carries" a form field / JSON body is not
 				// decided by C05's statement: the outcome is not judged, the five engines must still agree (C12)
